@@ -480,7 +480,7 @@ pub fn install_panic_hook() {
         };
         let th = std::thread::current().name().unwrap_or("?").to_string();
         let line = format!("panic thread={} at {} : {}", th, loc, msg);
-        if !PANIC_QUIET.load(Ordering::Relaxed) {
+        if !PANIC_QUIET.load(Ordering::Relaxed) || !info.can_unwind() {
             eprintln!("{}", line);
         }
         PANIC_LOG.lock().unwrap_or_else(|e| e.into_inner()).push(line);
